@@ -1,6 +1,7 @@
 (* C16 - proofs of possession are sound and domain-separated from every signature. *)
 From Coq Require Import ZArith NArith List Bool.
 From V Require Import Spec.Bilinear Generated.Consts Model.BlsAbs Model.PopAbs Proofs.BlsProofs Proofs.PopProofs Proofs.BilinearInst.
+From V Require Spec.HashSpec Proofs.KmacInjective.
 Import ListNotations.
 
 (* over the ciphersuite strings regenerated from bls.go: for every application tag the KMAC key
@@ -8,6 +9,26 @@ Import ListNotations.
 Theorem C16_pop_key_never_a_sig_key : forall tag : list N, sig_key tag <> pop_key.
 Proof. exact pop_key_never_a_sig_key. Qed.
 Print Assumptions C16_pop_key_never_a_sig_key.
+
+(* distinct KMAC keys (and distinct messages) give distinct framed sponge inputs: the byte string
+   absorbed by KMAC128 determines customizer, key and message (proved under C13) *)
+Theorem C16_kmac_framing_injective :
+  forall outlen S K X S' K' X',
+    KmacInjective.kmac_absorbed S K X outlen = KmacInjective.kmac_absorbed S' K' X' outlen -> S = S' /\ K = K' /\ X = X'.
+Proof. exact KmacInjective.kmac_framing_injective. Qed.
+Print Assumptions C16_kmac_framing_injective.
+
+(* hence: the sponge input of a signature hash under ANY application tag differs from the sponge
+   input of the proof-of-possession hash, whatever the messages *)
+Corollary C16_sig_and_pop_sponge_inputs_differ :
+  forall tag msg msg' outlen S,
+    KmacInjective.kmac_absorbed S (sig_key tag) msg outlen <> KmacInjective.kmac_absorbed S pop_key msg' outlen.
+Proof.
+  intros tag msg msg' outlen S E.
+  apply KmacInjective.kmac_framing_injective in E as (_ & K & _).
+  exact (pop_key_never_a_sig_key tag K).
+Qed.
+Print Assumptions C16_sig_and_pop_sponge_inputs_differ.
 
 Section C16.
 Context {B : bilinear} {C : codecs}.
